@@ -111,6 +111,15 @@ Theorem C04_run_is_trace : forall ops,
 Proof. exact run_is_trace. Qed.
 Print Assumptions C04_run_is_trace.
 
+(* The monitor run on implementation traces (Corr.v) accepts every trace the proven model can
+   produce with admissible Select choices: a monitor failure on the real code is a deviation
+   from the model the theorems above are about, not an artefact of the monitor. *)
+Theorem C04_monitor_sound : forall ops,
+  (forall a b, ~ In (OStress a b) ops) -> ~ In EBadChoice (events ops) ->
+  monitor (ops, run ops) = true.
+Proof. exact monitor_sound. Qed.
+Print Assumptions C04_monitor_sound.
+
 (* ---- non-vacuity ---- *)
 
 (* a history with AddSelector while running, a closed channel, a dropped dead selector,
